@@ -244,6 +244,18 @@ func checkCase(c *core.Ctx, idx int64, op opDef, conc, abs []cty.Value, attr str
 	if w := mon.WellFormed(cres); w != "" {
 		c.CrossNote("C06", "Value."+op.name+": "+w, desc())
 	}
+	if idx%3 == 0 {
+		// history step: somebody else has already refined the placeholders of the abstract operands further and
+		// thrown the results away. The operands are values; they still admit what they admitted.
+		derived := 0
+		for _, a := range abs {
+			derived += gen.DeriveAndDiscard(a)
+		}
+		if derived > 0 {
+			c.Count("history:placeholders-refined-further-elsewhere")
+			c.Eval(derived)
+		}
+	}
 	ao := core.Guard(func() { ares = op.call(abs, attr) })
 	c.Eval(1)
 	c.Distinct(desc(), nrep > 0)
